@@ -7,7 +7,10 @@ export CARGO_TARGET_DIR=/verif/target
 export RUSTFLAGS="--cfg rip_verif"
 mkdir -p /verif/target /verif/evidence
 (cd /verif/harness && cargo build --offline 2>&1 | tail -3)
+# C20 drives rip-cli's headless renderers through the real binary (/verif/target/debug/rip)
+(cd /repo && cargo build --offline -p rip-cli 2>&1 | tail -1)
 if [ -f /verif/harness/shim/crashshim.c ]; then
-  gcc -O1 -shared -fPIC -o /verif/target/crashshim.so /verif/harness/shim/crashshim.c -ldl
+  gcc -O1 -shared -fPIC -o /verif/target/crashshim.so.new /verif/harness/shim/crashshim.c -ldl
+  mv -f /verif/target/crashshim.so.new /verif/target/crashshim.so
 fi
 echo "setup ok"
